@@ -3,8 +3,8 @@ from ..core import Script, Rng
 from ..stage import LineStage, replay_line
 from .common import *
 
-ARTEFACTS = ["G1-consts", "G2-rs-portable", "G2-ref-compress", "G15-rs-sse41", "G24-portable-many", "G16-rs-avx2", "G17-rs-sse2", "G21-c-avx512", "G21-c-avx512-prog", "G18-c-sse41", "G19-c-sse2", "G20-c-avx2", "G27-asm-sse41-compress", "G29-asm-sse2-compress"]
-EXTRA_PROPS = [("B3.Simd.Sse41Props", "B3/Simd/Sse41Props.lean"), ("B3.Simd.Sse41PropsMany", "B3/Simd/Sse41PropsMany.lean"), ("B3.Props.C05P", "B3/Props/C05P.lean"), ("B3.Simd.Avx2Props", "B3/Simd/Avx2Props.lean"), ("B3.Simd.Sse2Props", "B3/Simd/Sse2Props.lean"), ("B3.Simd.CAvx512Props", "B3/Simd/CAvx512Props.lean"), ("B3.Simd.CSse41Props", "B3/Simd/CSse41Props.lean"), ("B3.Simd.CSse2Props", "B3/Simd/CSse2Props.lean"), ("B3.Simd.CAvx2Props", "B3/Simd/CAvx2Props.lean"), ("B3.Props.C05A", "B3/Props/C05A.lean")]
+ARTEFACTS = ["G1-consts", "G2-rs-portable", "G2-ref-compress", "G15-rs-sse41", "G24-portable-many", "G16-rs-avx2", "G17-rs-sse2", "G21-c-avx512", "G21-c-avx512-prog", "G18-c-sse41", "G19-c-sse2", "G20-c-avx2", "G27-asm-sse41-compress", "G29-asm-sse2-compress", "G30-asm-avx512-compress", "G31-asm-avx512-compress-wgnu", "G32-asm-sse41-compress-wgnu", "G33-asm-sse2-compress-wgnu", "G37-asm-sse41-compress-msvc"]
+EXTRA_PROPS = [("B3.Simd.Sse41Props", "B3/Simd/Sse41Props.lean"), ("B3.Simd.Sse41PropsMany", "B3/Simd/Sse41PropsMany.lean"), ("B3.Props.C05P", "B3/Props/C05P.lean"), ("B3.Simd.Avx2Props", "B3/Simd/Avx2Props.lean"), ("B3.Simd.Sse2Props", "B3/Simd/Sse2Props.lean"), ("B3.Simd.CAvx512Props", "B3/Simd/CAvx512Props.lean"), ("B3.Simd.CSse41Props", "B3/Simd/CSse41Props.lean"), ("B3.Simd.CSse2Props", "B3/Simd/CSse2Props.lean"), ("B3.Simd.CAvx2Props", "B3/Simd/CAvx2Props.lean"), ("B3.Props.C05A", "B3/Props/C05A.lean"), ("B3.Props.C05B", "B3/Props/C05B.lean"), ("B3.Props.C05BW", "B3/Props/C05BW.lean"), ("B3.Props.C05W", "B3/Props/C05W.lean")]
 RULE = ("kernel calls, compared with the model's kernels (generated from src/portable.rs, proved = Spec.compress): single-block "
         "kernels on the grid block_len 0..64 x flag byte classes with random cv/block and counters from {0,1,2^32-1,2^32,2^32+1,2^63,"
         "2^64-1,random}; hash_many with num_inputs 0..2*degree+3, blocks in {1,16}, counters 2^32-k (k<=17) and near 2^64 so every "
@@ -12,12 +12,13 @@ RULE = ("kernel calls, compared with the model's kernels (generated from src/por
         "xof_many n in 1..40; for Rust Platform::{portable,sse2,sse41,avx2,avx512} in the default (asm via ffi), pure (Rust intrinsics) "
         "and prefer_intrinsics (C intrinsics) builds, and for every C symbol flavour incl. the Windows-GNU assembly through ms_abi; "
         "non-trivial = every call (distinct arguments); distinct = distinct op line")
-ASSUMPTIONS = ["hand-written assembly: the single-block routines of the unix SSE4.1 and SSE2 files are translated instruction by instruction and proved "
-               "equal to Spec.compress under the machine semantics B3/Asm/Sse.lean (trusted; run against the CPU here); the other assembly "
-               "routines (hash_many, xof_many, AVX2, AVX-512, Windows files) are not modelled at instruction level: a defect in them confined to "
-               "an argument class no generator produces would be missed",
+ASSUMPTIONS = ["hand-written assembly: the single-block routines (compress_in_place, compress_xof) of the unix and Windows-GNU SSE4.1, SSE2 and "
+               "AVX-512 files and of the MSVC SSE4.1 file are translated instruction by instruction and proved equal to Spec.compress under the "
+               "machine semantics B3/Asm/Sse.lean, Avx512Sem.lean, WinSem.lean (trusted; run against the CPU here); the many-input assembly "
+               "routines (hash_many, xof_many; the AVX2 files have only these) are not modelled at instruction level: a defect in them confined "
+               "to an argument class no generator produces would be missed",
                "the lane models of the intrinsics (Simd/Prim*.lean) and the machine semantics are trusted descriptions of the hardware, compared with the CPU on every run"]
-NOT_PROVED = ["that the hand-written assembly hash_many / xof_many routines and the AVX2 / AVX-512 / Windows assembly files implement the kernel contract "
+NOT_PROVED = ["that the hand-written assembly hash_many / xof_many routines implement the kernel contract "
               "(correspondence only; their calling-convention clause is proved in C07A)"]
 M64 = (1 << 64) - 1
 RS_PLATS = PLATFORMS
@@ -269,11 +270,23 @@ class SimdModelStage2:
 
 
 class AsmSemStage:
-    """the instruction lists generated from c/blake3_sse41_x86-64_unix.S and c/blake3_sse2_x86-64_unix.S (compress_in_place, compress_xof)
-    run by the machine semantics B3/Asm/Sse.lean, against the assembled routines on the CPU, with and without garbage in the unused
-    upper bits of the 8-bit arguments (`CK dirty`); also checks that the model run ends `ok returned` after the proved step count"""
+    """the instruction lists generated from the assembly files (single-block routines compress_in_place / compress_xof of the unix
+    SSE4.1, SSE2 and AVX-512 files, the Windows-GNU SSE4.1, SSE2 and AVX-512 files and the MSVC SSE4.1 file) run by the machine
+    semantics B3/Asm/Sse.lean (+ Avx512Sem.lean, WinSem.lean), against the assembled routines on the CPU, with and without garbage
+    in the unused upper bits of the 8-bit arguments (`CK dirty`); also checks that the model run ends `ok returned` after the proved
+    step count with the register frame of its convention intact"""
     name = "asm-semantics-vs-cpu"
-    STEPS = {("cip", "sse41"): 468, ("cxof", "sse41"): 476, ("cip", "sse2"): 552, ("cxof", "sse2"): 560}
+    # (label for the Lean runner, cdriver symbol, runner script, lake module, steps cip, steps cxof, suffix of the model's answer)
+    FAMILIES = [
+        ("sse41", "sse41_asm", "RunAsm.lean", "B3.Asm.Run", 468, 476, ""),
+        ("sse2", "sse2_asm", "RunAsm.lean", "B3.Asm.Run", 552, 560, ""),
+        ("avx512", "avx512_asm", "RunAsm512.lean", "B3.Asm.Run512", 363, 367, " frame"),
+        ("avx512_wgnu", "win_avx512_asm", "RunAsm512.lean", "B3.Asm.Run512", 372, 377, " frame"),
+        ("sse41", "win_sse41_asm", "RunAsmWin.lean", "B3.Asm.WgnuRun", 485, 492, " saved"),
+        ("sse2", "win_sse2_asm", "RunAsmWin.lean", "B3.Asm.WgnuRun", 569, 576, " saved"),
+        # no MASM assembler here: the list translated from the MSVC file is compared with the CPU running the Windows-GNU object
+        ("sse41msvc", "win_sse41_asm", "RunAsmWin.lean", "B3.Asm.WgnuRun", 485, 492, " saved"),
+    ]
 
     def __init__(self, seed, n):
         self.seed, self.n = seed, n
@@ -287,50 +300,55 @@ class AsmSemStage:
         if not okc:
             return dict(evaluations=0, distinct=set(), hist={}, samples=[], mismatches=[dict(kind="driver-crash", impl_name="c", ops=[], log_tail=clog[-2000:])])
         D = {0: 0, 1: 0xA5C3A5C300000000, 2: 0xA5C3A5C3A5C3A500}
-        c_lines, l_lines, meta = [], [], []
-        for isa in ("sse41", "sse2"):
-            for op in ("cip", "cxof"):
-                for dirty in (0, 1, 2):
-                    c_lines.append(f"CK dirty {dirty}")
-                    meta.append(None)
-                    for k in range(self.n if dirty == 0 else (3 * self.n) // 4):
-                        cv, blk = rhex(rng, 32), rhex(rng, 64)
-                        bl = rng.randrange(0, 65) if k % 3 else rng.randrange(256)
-                        fl = rng.randrange(256)
-                        ctr = counters(rng)
-                        c_lines.append(f"CK {op} {isa}_asm {cv} {blk} {bl} {ctr} {fl}")
-                        meta.append(len(l_lines))
-                        l_lines.append(f"{op} {isa} {cv} {blk} {bl | D[dirty]} {ctr} {fl | D[dirty]}")
-        c_lines.append("CK dirty 0")
-        meta.append(None)
-        rc, out, _ = core.run_driver(cexe, c_lines)
-        rcb, outb = core.run(["lake", "build", "B3.Asm.Run"], cwd=core.LEAN_DIR, timeout=3600)
-        if rcb != 0:
-            return dict(evaluations=0, distinct=set(), hist={}, samples=[],
-                        mismatches=[dict(kind="driver-crash", impl_name="c", ops=[], note="B3.Asm.Run does not build", log_tail=outb[-1500:])])
-        try:
-            pr = subprocess.run(["lake", "env", "lean", "--run", "RunAsm.lean"], cwd=core.LEAN_DIR, input="\n".join(l_lines) + "\n",
-                                stdout=subprocess.PIPE, stderr=subprocess.PIPE, text=True, timeout=3000)
-            mo = pr.stdout.split("\n")
-        except subprocess.TimeoutExpired:
-            mo = []
-        for i, a in enumerate(c_lines):
-            j = meta[i]
-            if j is None:
+        hist = {}
+        for script in sorted({f[2] for f in self.FAMILIES}):
+            fams = [f for f in self.FAMILIES if f[2] == script]
+            c_lines, l_lines, meta = [], [], []
+            for (isa, sym, _, mod, s_cip, s_xof, suffix) in fams:
+                for op in ("cip", "cxof"):
+                    for dirty in (0, 1, 2):
+                        c_lines.append(f"CK dirty {dirty}")
+                        meta.append(None)
+                        for k in range(self.n if dirty == 0 else (3 * self.n) // 4):
+                            cv, blk = rhex(rng, 32), rhex(rng, 64)
+                            bl = rng.randrange(0, 65) if k % 3 else rng.randrange(256)
+                            fl = rng.randrange(256)
+                            ctr = counters(rng)
+                            c_lines.append(f"CK {op} {sym} {cv} {blk} {bl} {ctr} {fl}")
+                            meta.append((len(l_lines), s_cip if op == "cip" else s_xof, suffix))
+                            l_lines.append(f"{op} {isa} {cv} {blk} {bl | D[dirty]} {ctr} {fl | D[dirty]}")
+            c_lines.append("CK dirty 0")
+            meta.append(None)
+            rc, out, _ = core.run_driver(cexe, c_lines)
+            mod = fams[0][3]
+            rcb, outb = core.run(["lake", "build", mod], cwd=core.LEAN_DIR, timeout=3600)
+            if rcb != 0:
+                mism.append(dict(kind="driver-crash", impl_name="c", ops=[], note=mod + " does not build", log_tail=outb[-1500:]))
                 continue
-            x = out[i] if i < len(out) else "<missing>"
-            y = mo[j] if j < len(mo) else "<missing>"
-            if x == "unsupported":
-                continue
-            evals += 1
-            t = l_lines[j].split(" ")
-            want = f"{x} ok returned {self.STEPS[(t[0], t[1])]}"
-            if y != want and len(mism) < 6:
-                mism.append(dict(kind="impl-vs-model", impl_name="c", ops=[a], impl_differs=True, impl_output=x[:300], model_output=y[:300],
-                                 note="assembly routine on the CPU differs from the translated instruction list under the machine semantics "
-                                      "(or the model run faulted / used a different number of steps); model input: " + l_lines[j][:200]))
-        distinct |= set(l_lines)
-        return dict(evaluations=evals, distinct=distinct, hist={"cases": evals}, samples=[], mismatches=mism)
+            try:
+                pr = subprocess.run(["lake", "env", "lean", "--run", script], cwd=core.LEAN_DIR, input="\n".join(l_lines) + "\n",
+                                    stdout=subprocess.PIPE, stderr=subprocess.PIPE, text=True, timeout=3000)
+                mo = pr.stdout.split("\n")
+            except subprocess.TimeoutExpired:
+                mo = []
+            for i, a in enumerate(c_lines):
+                if meta[i] is None:
+                    continue
+                j, steps, suffix = meta[i]
+                x = out[i] if i < len(out) else "<missing>"
+                y = mo[j] if j < len(mo) else "<missing>"
+                if x == "unsupported":
+                    continue
+                evals += 1
+                hist[script] = hist.get(script, 0) + 1
+                want = f"{x} ok returned {steps}{suffix}"
+                if y != want and len(mism) < 8:
+                    mism.append(dict(kind="impl-vs-model", impl_name="c", ops=[a], impl_differs=True, impl_output=x[:300], model_output=y[:300],
+                                     note="assembly routine on the CPU differs from the translated instruction list under the machine semantics "
+                                          "(or the model run faulted / used a different number of steps / lost a callee-saved register); "
+                                          f"model input ({script}): " + l_lines[j][:200]))
+            distinct |= {script + ":" + l for l in l_lines}
+        return dict(evaluations=evals, distinct=distinct, hist=hist, samples=[], mismatches=mism)
 
 
 def normalize(op, out):
